@@ -337,6 +337,16 @@ fn lloyd_wide_d<F: SS, D: Dst<F>>(p: &Params, dist: D, pw: usize) {
             }
         }
         check_bool("lloyd_wide.counts sum to n", model.cluster_count().iter().map(|v| v.shadow() as usize).sum::<usize>() == n);
+        if it + 1 == iters {
+            // also used by C20 (cross-process replays under different rayon pools): everything a fit reports
+            observe(model.inertia());
+            for v in model.cluster_count().iter() {
+                observe(*v);
+            }
+            for l in model.predict(&x).iter().step_by(37) {
+                observe_usize(*l);
+            }
+        }
         cur = c1;
     }
 }
